@@ -43,6 +43,7 @@ var c37Assumptions = []string{
 	"the second branch and the independent database receive exactly the same statement sequence (including the parent table of the foreign key): tag collision resolution against tables that exist on one side only is by design and not asserted",
 	"FULLTEXT, SPATIAL and VECTOR indexes are not generated",
 	"tables hold no rows (tags and serialization do not depend on data)",
+	"columns named by a CHECK constraint or by a generated column's expression are never renamed, retyped or dropped (dolt accepts e.g. CHANGE COLUMN of a column a CHECK refers to and leaves a table that SHOW CREATE TABLE cannot render; a DDL validation gap outside this property)",
 }
 
 // ---------------------------------------------------------------------------------------
@@ -253,6 +254,17 @@ type c37Model struct {
 	// feature flags of what was generated and accepted
 	ExprDefault bool
 	NonDefColl  bool
+	// Ref: columns named by a CHECK or by a generated column's expression. They are never
+	// renamed, retyped or dropped (dolt accepts e.g. CHANGE COLUMN of a column a CHECK refers to
+	// and leaves the table unusable; that is outside this property).
+	Ref map[string]bool
+}
+
+func (m *c37Model) ref(name string) {
+	if m.Ref == nil {
+		m.Ref = map[string]bool{}
+	}
+	m.Ref[name] = true
 }
 
 func (m *c37Model) newName(prefix string) string {
@@ -285,6 +297,8 @@ type c37Spec struct {
 	SQL  string // "<type> <options>" without the name
 	Expr bool
 	Coll bool
+	// RefCol is the column a generated column's expression reads ("" = none)
+	RefCol string
 }
 
 // c37GenColSpec draws a column definition. m supplies existing columns for generated columns.
@@ -389,10 +403,12 @@ func c37GenColSpec(rt *rapid.T, m *c37Model, class string, allowGen bool) c37Spe
 		var expr string
 		if class == "int" {
 			if src := m.colsOf("int"); len(src) > 0 {
-				expr = fmt.Sprintf("(`%s` + 1)", src[rapid.IntRange(0, len(src)-1).Draw(rt, "gensrc")].Name)
+				sp.RefCol = src[rapid.IntRange(0, len(src)-1).Draw(rt, "gensrc")].Name
+				expr = fmt.Sprintf("(`%s` + 1)", sp.RefCol)
 			}
 		} else if src := m.colsOf("str"); len(src) > 0 {
-			expr = fmt.Sprintf("(CONCAT(`%s`, 'x'))", src[rapid.IntRange(0, len(src)-1).Draw(rt, "gensrc")].Name)
+			sp.RefCol = src[rapid.IntRange(0, len(src)-1).Draw(rt, "gensrc")].Name
+			expr = fmt.Sprintf("(CONCAT(`%s`, 'x'))", sp.RefCol)
 			if !strings.Contains(typ, "(") || strings.HasPrefix(typ, "CHAR(1)") || strings.HasPrefix(typ, "VARCHAR(1)") {
 				expr = ""
 			}
@@ -485,29 +501,32 @@ func c37GenIndexDef(rt *rapid.T, m *c37Model) (name, def string, ok bool) {
 	return name, def, true
 }
 
-func c37GenCheckDef(rt *rapid.T, m *c37Model) (name, def string, ok bool) {
+func c37GenCheckDef(rt *rapid.T, m *c37Model) (name, def string, refs []string, ok bool) {
 	ints, strs := m.colsOf("int", "dec", "float"), m.colsOf("str")
 	var expr string
 	switch {
 	case len(ints) > 0 && rapid.Bool().Draw(rt, "chk.int"):
 		c := ints[rapid.IntRange(0, len(ints)-1).Draw(rt, "chk.col")]
 		expr = fmt.Sprintf("`%s` %s %d", c.Name, rapid.SampledFrom([]string{">", ">=", "<>", "<"}).Draw(rt, "chk.op"), rapid.IntRange(-100, 100).Draw(rt, "chk.val"))
+		refs = append(refs, c.Name)
 		if len(ints) > 1 && rapid.Bool().Draw(rt, "chk.two") {
 			expr += fmt.Sprintf(" OR `%s` IS NULL", ints[0].Name)
+			refs = append(refs, ints[0].Name)
 		}
 	case len(strs) > 0:
 		c := strs[rapid.IntRange(0, len(strs)-1).Draw(rt, "chk.col")]
 		expr = rapid.SampledFrom([]string{"CHAR_LENGTH(`%s`) < 2000", "`%s` <> 'bad'", "`%s` NOT LIKE '%%x%%'"}).Draw(rt, "chk.form")
 		expr = fmt.Sprintf(expr, c.Name)
+		refs = append(refs, c.Name)
 	default:
-		return "", "", false
+		return "", "", nil, false
 	}
 	name = m.newName("chk")
 	def = fmt.Sprintf("CONSTRAINT `%s` CHECK (%s)", name, expr)
 	if rapid.IntRange(0, 4).Draw(rt, "chk.notenforced") == 0 {
 		def += " NOT ENFORCED"
 	}
-	return name, def, true
+	return name, def, refs, true
 }
 
 // c37Stmt is one DDL statement plus the model update to apply when dolt accepts it.
@@ -518,7 +537,7 @@ type c37Stmt struct {
 }
 
 func c37GenCreate(rt *rapid.T, m *c37Model) c37Stmt {
-	var defs []string
+	var defs, refs []string
 	var cols []c37Col
 	tmp := &c37Model{}
 	expr, coll := false, false
@@ -548,6 +567,9 @@ func c37GenCreate(rt *rapid.T, m *c37Model) c37Stmt {
 		}
 		defs = append(defs, fmt.Sprintf("`%s` %s", sp.Col.Name, sql))
 		cols = append(cols, sp.Col)
+		if sp.RefCol != "" {
+			refs = append(refs, sp.RefCol)
+		}
 		expr = expr || sp.Expr
 		coll = coll || sp.Coll
 	}
@@ -571,9 +593,10 @@ func c37GenCreate(rt *rapid.T, m *c37Model) c37Stmt {
 	}
 	nchk := rapid.IntRange(0, 2).Draw(rt, "nchk")
 	for i := 0; i < nchk; i++ {
-		if n, d, ok := c37GenCheckDef(rt, tmp); ok {
+		if n, d, r, ok := c37GenCheckDef(rt, tmp); ok {
 			defs = append(defs, d)
 			chks = append(chks, n)
+			refs = append(refs, r...)
 		}
 	}
 	// foreign key to the parent table p(id INT PRIMARY KEY)
@@ -595,6 +618,9 @@ func c37GenCreate(rt *rapid.T, m *c37Model) c37Stmt {
 	return c37Stmt{SQL: fmt.Sprintf("CREATE TABLE `%s` (%s)%s", m.Table, strings.Join(defs, ", "), opts), Apply: func(m *c37Model) {
 		m.Cols, m.Idx, m.Checks, m.seq = cols, idx, chks, seq
 		m.ExprDefault, m.NonDefColl = expr, coll
+		for _, r := range refs {
+			m.ref(r)
+		}
 	}}
 }
 
@@ -612,7 +638,7 @@ func c37GenAlter(rt *rapid.T, m *c37Model) c37Stmt {
 	nonPK := func() []c37Col {
 		var out []c37Col
 		for _, c := range m.Cols {
-			if !c.PK {
+			if !c.PK && !m.Ref[c.Name] {
 				out = append(out, c)
 			}
 		}
@@ -637,6 +663,9 @@ func c37GenAlter(rt *rapid.T, m *c37Model) c37Stmt {
 			return c37Stmt{Alter: true, SQL: fmt.Sprintf("ALTER TABLE %s ADD COLUMN `%s` %s%s", t, col.Name, sp.SQL, pos), Apply: func(m *c37Model) {
 				_ = posCopy
 				m.Cols = append(m.Cols, col)
+				if sp.RefCol != "" {
+					m.ref(sp.RefCol)
+				}
 				m.ExprDefault = m.ExprDefault || sp.Expr
 				m.NonDefColl = m.NonDefColl || sp.Coll
 			}}
@@ -679,6 +708,9 @@ func c37GenAlter(rt *rapid.T, m *c37Model) c37Stmt {
 			}
 		case "renamecol":
 			c := pick(m.Cols, "alter.col")
+			if m.Ref[c.Name] {
+				continue
+			}
 			newName := m.newName("r")
 			return c37Stmt{Alter: true, SQL: fmt.Sprintf("ALTER TABLE %s RENAME COLUMN `%s` TO `%s`", t, c.Name, newName), Apply: func(m *c37Model) {
 				for i := range m.Cols {
@@ -717,8 +749,13 @@ func c37GenAlter(rt *rapid.T, m *c37Model) c37Stmt {
 				}}
 			}
 		case "addchk":
-			if n, d, ok := c37GenCheckDef(rt, m); ok {
-				return c37Stmt{Alter: true, SQL: fmt.Sprintf("ALTER TABLE %s ADD %s", t, d), Apply: func(m *c37Model) { m.Checks = append(m.Checks, n) }}
+			if n, d, r, ok := c37GenCheckDef(rt, m); ok {
+				return c37Stmt{Alter: true, SQL: fmt.Sprintf("ALTER TABLE %s ADD %s", t, d), Apply: func(m *c37Model) {
+					m.Checks = append(m.Checks, n)
+					for _, x := range r {
+						m.ref(x)
+					}
+				}}
 			}
 		case "dropchk":
 			if len(m.Checks) > 0 {
